@@ -314,6 +314,59 @@ Definition parse_on (st0 : pstate) (f : fmt) (lenient : bool) (tokens : list str
   end.
 Definition parse (f : fmt) (lenient : bool) (tokens : list str) : res args := snd (parse_on ps_empty f lenient tokens).
 
+(* ---- C05: the parser OBJECT.  DefaultArgsParser keeps two scratch maps on the object (self._arguments, self._options);
+   whether a parse depends on what earlier parses left there is decided by the first statements of parse(): the maps it
+   rebinds to a fresh OrderedDict() before anything else.  [parse_on] above is the code as it is now (both maps reset; repo
+   fix d80c000).  Here the same body is written with the incoming scratch state as a parameter ([parse_from]) and the set
+   of maps reset at entry as a parameter ([resets]), so that "re-using the parser gives what a fresh parser gives" is a
+   statement that CAN fail: it does for every choice of [resets] other than both (Proofs/ParserStateLemmas.v). ---- *)
+(* DefaultArgsParser.parse after its first two statements, on a parser object whose scratch maps hold [st].
+   Line for line the body of Parser.parse_on (ParserStateLemmas.parse_on_is_parse_from_empty: equal by computation). *)
+Definition parse_from (st : pstate) (f : fmt) (lenient : bool) (tokens : list str) : pstate * res args :=
+  match aug_format f with
+  | Err k => (st, Err k)
+  | Ok (f', arguments, command_names) =>
+    let '(st1, e) := loop (S (length tokens)) f' lenient true st tokens in
+    match (match e with
+           | Some CannotParse | Some NoSuchOption => if lenient then None else e
+           | _ => e end) with
+    | Some k => (st1, Err k)
+    | None =>
+      match insert_missing arguments command_names lenient st1 with
+      | Err k => (st1, Err k)
+      | Ok st2 =>
+        if missing_required arguments st2 && negb lenient then (st2, Err CannotParse)
+        else
+          (st2, do a1 <- set_arguments f {| ar_opts := []; ar_args := [] |} (ps_args st2);
+                set_options f a1 (ps_opts st2))
+      end
+    end
+  end.
+
+(* which scratch maps the first statements of parse() rebind to a fresh OrderedDict() *)
+Record resets := { rs_args : bool; rs_opts : bool }.
+Definition apply_resets (r : resets) (st : pstate) : pstate :=
+  {| ps_args := if rs_args r then [] else ps_args st; ps_opts := if rs_opts r then [] else ps_opts st |}.
+Definition RESET_BOTH : resets := {| rs_args := true; rs_opts := true |}.        (* the code as it is *)
+Definition RESET_ARGS_ONLY : resets := {| rs_args := true; rs_opts := false |}.  (* the code before fix d80c000 *)
+Definition RESET_OPTS_ONLY : resets := {| rs_args := false; rs_opts := true |}.
+Definition RESET_NONE : resets := {| rs_args := false; rs_opts := false |}.
+
+(* one parse on a parser object in state st0 *)
+Definition parse_obj (r : resets) (st0 : pstate) (f : fmt) (lenient : bool) (tokens : list str) : pstate * res args :=
+  parse_from (apply_resets r st0) f lenient tokens.
+
+(* a history of requests on ONE parser object: the state a parse leaves is the state the next one finds *)
+Fixpoint run_history_obj (r : resets) (st : pstate) (reqs : list (fmt * bool * list str)) : list (res args) :=
+  match reqs with
+  | [] => []
+  | (f, len, toks) :: rest => let '(st', res) := parse_obj r st f len toks in res :: run_history_obj r st' rest
+  end.
+(* each request on a parser of its own *)
+Definition fresh_results (reqs : list (fmt * bool * list str)) : list (res args) :=
+  map (fun q : fmt * bool * list str => let '(f, len, toks) := q in parse f len toks) reqs.
+
+
 (* ---- the read side of Args ---- *)
 Definition opt_default_value (o : opt) : pyval := if o_accepts o then o_default o else VBool false.
 Definition args_option (f : fmt) (a : args) (name : str) : res pyval :=
@@ -398,7 +451,7 @@ Fixpoint build_formats (l : list (list (list element))) : res (list fmt) :=
     | None => Err (Other 5)
     end
   end.
-Definition run_C05 (s : sexp) : sexp :=
+Definition run_C05_asis (s : sexp) : sexp :=
   match s with
   | L [fmts; reqs; extra] =>
     match dList (dList (dList dec_element)) fmts, dList dec_request reqs, dList dStr extra with
@@ -410,4 +463,35 @@ Definition run_C05 (s : sexp) : sexp :=
     | _, _, _ => sBad
     end
   | _ => sBad
+  end.
+
+(* ---- wire: (formats requests extra [resets]) - without the fourth element, or with 0, the code as it is (run_C05_asis);
+   1 = only _arguments reset (the code before the repair), 2 = only _options reset, 3 = nothing reset.  The harness runs
+   the real parse() body with the corresponding rebinding at entry disabled, on ONE parser object. ---- *)
+Fixpoint run_requests_obj (r : resets) (fs : list fmt) (extra : list str) (st : pstate) (reqs : list (nat * bool * list str)) : list sexp :=
+  match reqs with
+  | [] => []
+  | (i, len, toks) :: rest =>
+    match nth_error fs i with
+    | None => [sBad]
+    | Some f => let '(st', res) := parse_obj r st f len toks in sRes (enc_args f extra) res :: run_requests_obj r fs extra st' rest
+    end
+  end.
+Definition resets_of (z : Z) : option resets :=
+  match z with
+  | 0%Z => Some RESET_BOTH | 1%Z => Some RESET_ARGS_ONLY | 2%Z => Some RESET_OPTS_ONLY | 3%Z => Some RESET_NONE
+  | _ => None
+  end.
+Definition run_C05 (s : sexp) : sexp :=
+  match s with
+  | L [fmts; reqs; extra; A z] =>
+    match dList (dList (dList dec_element)) fmts, dList dec_request reqs, dList dStr extra, resets_of z with
+    | Some fmts, Some reqs, Some extra, Some r =>
+      match build_formats fmts with
+      | Ok fs => L [A 0%Z; L (run_requests_obj r fs extra ps_empty reqs)]
+      | Err k => L [A (-3)%Z; A (ekind_code k)]
+      end
+    | _, _, _, _ => sBad
+    end
+  | _ => run_C05_asis s
   end.
